@@ -322,7 +322,11 @@ func newPeer(c *mon.Case, mproto, tr string, macatBinds bool) *peer {
 	}
 	_ = pe.sock.SetOption(mangos.OptionSendDeadline, wdog)
 	if !macatBinds {
-		l, err := pe.sock.NewListener(hx.ListenAddr(tr), nil)
+		la := hx.ListenAddr(tr)
+		if tr == "tcp" {
+			la = "tcp://127.0.0.1:0" // macat's -l / --connect-local forms name a port on 127.0.0.1
+		}
+		l, err := pe.sock.NewListener(la, nil)
 		must(err)
 		must(l.Listen())
 		pe.url = l.Address()
